@@ -101,6 +101,11 @@ Generator_System::set_space_dimension(const dimension_type space_dim) {
   if (space_dim < old_space_dim) {
     // We may have invalid lines and rays now.
     remove_invalid_lines_and_rays();
+    // The relative order of the rows depends on the removed
+    // coefficients too.
+    if (sys.is_sorted() && !sys.check_sorted()) {
+      sys.set_sorted(false);
+    }
   }
 
 #ifndef NDEBUG
